@@ -120,11 +120,11 @@ impl Board {
 
 impl MoveGen {
     pub fn is_empty(&self) -> bool {
-        if let [legals, ..] = &self.moves[self.index..] {
-            return (legals.moves & self.mask).none();
-        }
-
-        true
+        // entries may have been emptied by `remove`/`remove_move` (or be masked out) while later
+        // entries still hold moves, so all remaining entries must be inspected
+        self.moves[self.index..]
+            .iter()
+            .all(|legals| (legals.moves & self.mask).none())
     }
 
     pub fn len(&self) -> usize {
@@ -133,9 +133,6 @@ impl MoveGen {
         let mut len = 0;
 
         for legals in &self.moves[self.index..] {
-            if (legals.moves & self.mask).none() {
-                break;
-            }
             let count = (legals.moves & self.mask).count() as usize;
             len += if legals.promotion {
                 count * NUM_PROMOTION_PIECES
@@ -198,16 +195,13 @@ impl Iterator for MoveGen {
     type Item = ChessMove;
 
     fn next(&mut self) -> Option<Self::Item> {
-        let legals = &mut self.moves[..];
-        if self.index >= legals.len() {
-            return None;
+        // skip the entries that have no move left under the current mask, they may have been
+        // emptied by `remove`/`remove_move` or never had a move inside the mask
+        while (self.moves.get(self.index)?.moves & self.mask).none() {
+            self.index += 1;
         }
 
-        let legal = &mut legals[self.index];
-
-        if (legal.moves & self.mask).none() {
-            return None;
-        }
+        let legal = &mut self.moves[self.index];
 
         if legal.promotion {
             let &promotion = self.promotions.next().unwrap();
